@@ -274,10 +274,12 @@ func runTypecheckShape(rr *RuleRun) {
 		rr.Broken("stale anchor: typeCheck has no variadic operand parameter")
 		return
 	}
-	var loop *ast.RangeStmt
+	var loop *wholeLoop
 	inspectNoLit(fd.Body, func(n ast.Node) bool {
-		if rs, ok := n.(*ast.RangeStmt); ok && loop == nil && objOf(info, rs.X) == values {
-			loop = rs
+		if loop == nil {
+			if wl := wholeSliceLoop(info, n, values); wl != nil {
+				loop = wl
+			}
 		}
 		return true
 	})
@@ -285,7 +287,7 @@ func runTypecheckShape(rr *RuleRun) {
 		rr.Violation("cty.typeCheck/loop", fd.Pos(), "typeCheck has no range loop over all its operands: operands that are not looked at can be unknown, dynamic or of the wrong type without the operation noticing")
 		return
 	}
-	elem := objOf(info, loop.Value)
+	elem := loop.Elem
 	cf := c.CondFacts(fd.Body, info, nil)
 	// 1. no exit from the loop other than the error return
 	bad := false
@@ -876,8 +878,12 @@ func init() {
 }
 
 var discardedErrorOK = map[string]string{
-	"cty.Value.ContainsMarked→cty.Walk":                    "the callback given here returns a nil error on every path, and Walk returns only what the callback returns",
-	"cty/msgpack.marshalUnknownValue→cty/msgpack.marshal": "encodes a [number, bool] tuple of a known finite bound into an in-memory buffer: neither kind has a failing branch in marshal",
+	"cty.Value.ContainsMarked→cty.Walk":                                           "the callback given here returns a nil error on every path, and Walk returns only what the callback returns",
+	"cty/msgpack.marshalUnknownValue→cty/msgpack.marshal":                         "encodes a [number, bool] tuple of a known finite bound into an in-memory buffer: neither kind has a failing branch in marshal",
+	"cty.Value.MarkWithPaths→cty.TransformWithTransformer/blank":                  "TransformWithTransformer returns only the errors of the transformer's own Enter / Exit, and applyPathValueMarksTransformer returns a nil error from both on every path",
+	"cty.Value.UnmarkDeep→cty.TransformWithTransformer/blank":                     "TransformWithTransformer returns only the errors of the transformer's own Enter / Exit, and unmarkTransformer returns a nil error from both on every path",
+	"cty.Value.UnmarkDeepWithPaths→cty.TransformWithTransformer/blank":            "TransformWithTransformer returns only the errors of the transformer's own Enter / Exit, and unmarkTransformer returns a nil error from both on every path",
+	"cty/function/stdlib.parseRFC3339→cty/function/stdlib.parseNanoseconds/blank": "called only after the caller has checked that the fraction starts with '.' and consists of digits, which are the only things parseNanoseconds can object to",
 }
 
 func runModuleErrorNotDiscarded(rr *RuleRun) {
@@ -889,12 +895,21 @@ func runModuleErrorNotDiscarded(rr *RuleRun) {
 		}
 		info := c.Info(pkg)
 		inspectNoLit(body, func(n ast.Node) bool {
-			es, ok := n.(*ast.ExprStmt)
-			if !ok {
-				return true
+			var call *ast.CallExpr
+			blank := false
+			switch x := n.(type) {
+			case *ast.ExprStmt:
+				call, _ = x.X.(*ast.CallExpr)
+			case *ast.AssignStmt:
+				// v, _ := f(): the error result is assigned to the blank identifier
+				if len(x.Rhs) == 1 && len(x.Lhs) >= 2 {
+					if id, ok := x.Lhs[len(x.Lhs)-1].(*ast.Ident); ok && id.Name == "_" {
+						call, _ = x.Rhs[0].(*ast.CallExpr)
+						blank = true
+					}
+				}
 			}
-			call, ok := es.X.(*ast.CallExpr)
-			if !ok {
+			if call == nil {
 				return true
 			}
 			f := callee(info, call)
@@ -905,10 +920,20 @@ func runModuleErrorNotDiscarded(rr *RuleRun) {
 			if !ok || sig.Results().Len() == 0 || !isErrorType(sig.Results().At(sig.Results().Len()-1).Type()) {
 				return true
 			}
+			if blank && sig.Results().Len() != len(n.(*ast.AssignStmt).Lhs) {
+				return true
+			}
 			k := fmt.Sprintf("%s.%s→%s", pkg, declName(fd), funcKey(f))
+			if blank {
+				k += "/blank"
+			}
 			if why, ok := discardedErrorOK[k]; ok {
 				seenOK[k] = true
 				rr.OKTrivial(k, call.Pos(), "tabled: "+why)
+				return true
+			}
+			if blank {
+				rr.Violation(k, call.Pos(), fmt.Sprintf("the error returned by %s is assigned to the blank identifier: if the nested step fails, its value result (the zero Value) is used as if it were the answer — a later method call on it panics, or a wrong value is returned with a nil error", funcKey(f)))
 				return true
 			}
 			rr.Violation(k, call.Pos(), fmt.Sprintf("the error returned by %s is discarded (the call is a bare statement): if the nested step fails, this function goes on and reports success with whatever was produced so far — a truncated encoding, a partial result", funcKey(f)))
@@ -920,4 +945,73 @@ func runModuleErrorNotDiscarded(rr *RuleRun) {
 			rr.Info("stale exemption "+k, token.NoPos, "the tabled call site no longer exists")
 		}
 	}
+}
+
+// wholeLoop is a loop that visits every element of one slice variable, in either of the two forms the tree and
+// its refactorings use: `for _, v := range S` and `for i := 0; i < len(S); i++ { v := S[i] … }`.
+type wholeLoop struct {
+	Stmt ast.Stmt
+	Body *ast.BlockStmt
+	Elem types.Object // the variable holding the element (nil when the element is only written S[i])
+}
+
+func (w *wholeLoop) Pos() token.Pos { return w.Stmt.Pos() }
+func (w *wholeLoop) End() token.Pos { return w.Stmt.End() }
+
+func wholeSliceLoop(info *types.Info, n ast.Node, slice types.Object) *wholeLoop {
+	switch x := n.(type) {
+	case *ast.RangeStmt:
+		if objOf(info, x.X) == slice {
+			var el types.Object
+			if x.Value != nil {
+				el = objOf(info, x.Value)
+			}
+			wl := &wholeLoop{Stmt: x, Body: x.Body, Elem: el}
+			if el == nil && x.Key != nil {
+				wl.Elem = indexedElemVar(info, x.Body, slice, objOf(info, x.Key))
+			}
+			return wl
+		}
+	case *ast.ForStmt:
+		// for i := 0; i < len(S); i++
+		as, ok := x.Init.(*ast.AssignStmt)
+		if !ok || len(as.Lhs) != 1 || len(as.Rhs) != 1 {
+			return nil
+		}
+		if v, ok := constInt(info, as.Rhs[0]); !ok || v != 0 {
+			return nil
+		}
+		idx := objOf(info, as.Lhs[0])
+		cond, ok := x.Cond.(*ast.BinaryExpr)
+		if !ok || cond.Op != token.LSS || objOf(info, cond.X) != idx {
+			return nil
+		}
+		ln, ok := ast.Unparen(cond.Y).(*ast.CallExpr)
+		if !ok || !isBuiltin(info, ln, "len") || len(ln.Args) != 1 || objOf(info, ln.Args[0]) != slice {
+			return nil
+		}
+		inc, ok := x.Post.(*ast.IncDecStmt)
+		if !ok || inc.Tok != token.INC || objOf(info, inc.X) != idx {
+			return nil
+		}
+		return &wholeLoop{Stmt: x, Body: x.Body, Elem: indexedElemVar(info, x.Body, slice, idx)}
+	}
+	return nil
+}
+
+// indexedElemVar: the local defined as S[i] by a leading statement of the loop body.
+func indexedElemVar(info *types.Info, body *ast.BlockStmt, slice, idx types.Object) types.Object {
+	if idx == nil {
+		return nil
+	}
+	for _, st := range body.List {
+		as, ok := st.(*ast.AssignStmt)
+		if !ok || as.Tok != token.DEFINE || len(as.Lhs) != 1 || len(as.Rhs) != 1 {
+			return nil
+		}
+		if ix, ok := ast.Unparen(as.Rhs[0]).(*ast.IndexExpr); ok && objOf(info, ix.X) == slice && objOf(info, ix.Index) == idx {
+			return objOf(info, as.Lhs[0])
+		}
+	}
+	return nil
 }
